@@ -1096,6 +1096,7 @@ func (r *rpf) stmtC(s ast.Stmt) *rpfReturn {
 // ---- encoder: second copy of the format information, pad bytes, block sizing ----
 
 func checkQRFormatPlacement(c *Ctx, r *Report) {
+	defer checkQRInfoPlaceWhole(c, r)
 	r.Rule("T-FMTPOS", "embedTypeInfo places bit i of the format word at TYPE_INFO_COORDINATES[i] and at the ISO 18004 second-copy position (i<8: (dim-1-i, 8); else (8, dim-7+(i-8))), folded for i=0..14 and all 40 dimensions", 1)
 	fd, p := c.funcDeclOf("qrcode/encoder", "embedTypeInfo")
 	key := "qrcode/encoder.embedTypeInfo"
@@ -1293,6 +1294,7 @@ func checkQRBlockSizing(c *Ctx, r *Report, rows []qrVersionRow) {
 
 // maybeEmbedVersionInfo: bit k (17..0) at (i, dim-11+j) and its transpose, i=0..5, j=0..2, gated by version >= 7
 func checkQRVersionPlacement(c *Ctx, r *Report) {
+	defer checkQRInfoPlaceWhole(c, r)
 	r.Rule("T-VERPOS", "maybeEmbedVersionInfo is skipped below version 7 and otherwise writes each version bit to (i, dim-11+j) and its transpose (loop body folded over i=0..5, j=0..2, all dimensions)", 2)
 	fd, p := c.funcDeclOf("qrcode/encoder", "maybeEmbedVersionInfo")
 	key := "qrcode/encoder.maybeEmbedVersionInfo"
@@ -2539,4 +2541,160 @@ func checkQRMaskHint(c *Ctx, r *Report) {
 		}
 	}
 	reportFold(r, c, "M-MASKHINT", key, fd.Body.List[from].Pos(), bad)
+}
+
+// S-INFOPLACEW: embedTypeInfo and maybeEmbedVersionInfo folded whole over a recording matrix and a planted bit array.
+func checkQRInfoPlaceWhole(c *Ctx, r *Report) {
+	if _, done := r.rules["S-INFOPLACEW"]; done {
+		return
+	}
+	r.Rule("S-INFOPLACEW", "embedTypeInfo and maybeEmbedVersionInfo folded whole with the word builders replaced by a planted bit array (one bit set at a time, and none) and the matrix by a recorder of SetBool: for each of the 40 dimensions the modules written are exactly the two copies of the standard - format bit k (most significant first) at (0..5,8),(7,8),(8,8),(8,7),(8,5..0) and at (8,d-1..d-7),(d-8..d-1,8); version bit k at columns d-9..d-11 of rows 5..0 and at the transpose - the planted bit dark at its two modules and every other module of the copies light; below version 7 maybeEmbedVersionInfo writes nothing", 3)
+	type coord struct{ i, j int64 }
+	fold := func(fd *ast.FuncDecl, p *packages.Package, args []*Val, dim int64, nbits int, set int) (map[coord]bool, error) {
+		written := map[coord]bool{}
+		h := &rpf{unroll: 64}
+		h.callHook = func(rr *rpf, call *ast.CallExpr, callee types.Object) (*Val, bool) {
+			fnc, ok := callee.(*types.Func)
+			if !ok {
+				return nil, false
+			}
+			recv := ""
+			if sig, ok := fnc.Type().(*types.Signature); ok && sig.Recv() != nil {
+				recv = namedOf(sig.Recv().Type())
+			}
+			switch {
+			case fnc.Name() == "NewEmptyBitArray":
+				return &Val{K: VStruct, Ptr: true, Fields: map[string]*Val{}}, true
+			case fnc.Name() == "makeTypeInfoBits" || fnc.Name() == "makeVersionInfoBits":
+				return &Val{K: VNil}, true
+			case recv == "BitArray" && fnc.Name() == "GetSize":
+				return vint(int64(nbits)), true
+			case recv == "BitArray" && fnc.Name() == "Get":
+				k := rr.expr(call.Args[0])
+				if k.K != VInt || k.I < 0 || k.I >= int64(nbits) {
+					rpfFail("bit %s of the %d-bit word is read", k, nbits)
+				}
+				return vbool(int(k.I) == set), true
+			case recv == "ByteMatrix" && (fnc.Name() == "GetWidth" || fnc.Name() == "GetHeight"):
+				return vint(dim), true
+			case recv == "ByteMatrix" && fnc.Name() == "SetBool":
+				x, y, b := rr.expr(call.Args[0]), rr.expr(call.Args[1]), rr.expr(call.Args[2])
+				if x.K != VInt || y.K != VInt || b.K != VBool {
+					rpfFail("SetBool with non-constant arguments")
+				}
+				if x.I < 0 || y.I < 0 || x.I >= dim || y.I >= dim {
+					rpfFail("SetBool(%d, %d) outside the %dx%d symbol", x.I, y.I, dim, dim)
+				}
+				written[coord{x.I, y.I}] = b.B
+				return &Val{K: VNil}, true
+			case recv == "ByteMatrix" && fnc.Name() == "Set":
+				rpfFail("the matrix is written through Set")
+			}
+			return errCtorHook(rr, call, callee)
+		}
+		res, err := c.rpfCall(fd, p, args, h)
+		if err == nil && (len(res) != 1 || res[0].K != VNil) {
+			err = fmt.Errorf("an error is returned")
+		}
+		return written, err
+	}
+	decide := func(key string, fd *ast.FuncDecl, p *packages.Package, nbits int, versions []int64, args func(ver int64) []*Val, copies func(dim int64) ([]coord, []coord)) {
+		r.Analysed(key)
+		folds := 0
+		for _, ver := range versions {
+			dim := 17 + 4*ver
+			w1, w2 := copies(dim)
+			for set := -1; set < nbits; set++ {
+				written, err := fold(fd, p, args(ver), dim, nbits, set)
+				folds++
+				if err != nil {
+					r.Undecided("S-INFOPLACEW", key, c.pos(fd.Pos()), fmt.Sprintf("version %d, bit %d set: %v", ver, set, err))
+					return
+				}
+				if len(written) != 2*nbits {
+					r.Fail("S-INFOPLACEW", key, c.pos(fd.Pos()), "violation", fmt.Sprintf("version %d: %d modules are written, expected the %d of the two copies", ver, len(written), 2*nbits))
+					return
+				}
+				for k := 0; k < nbits; k++ {
+					for ci, cd := range []coord{w1[k], w2[k]} {
+						b, ok := written[cd]
+						if !ok || b != (k == set) {
+							r.Fail("S-INFOPLACEW", key, c.pos(fd.Pos()), "violation", fmt.Sprintf("version %d, only bit %d (most significant first) of the word set: module (%d, %d) - bit %d of copy %d - is written=%v dark=%v", ver, set, cd.i, cd.j, k, ci+1, ok, b))
+							return
+						}
+					}
+				}
+			}
+		}
+		r.Pass("S-INFOPLACEW", key, c.pos(fd.Pos()), fmt.Sprintf("%d folds", folds))
+	}
+	var all, from7 []int64
+	for v := int64(1); v <= 40; v++ {
+		all = append(all, v)
+		if v >= 7 {
+			from7 = append(from7, v)
+		}
+	}
+	verVal := func(ver int64) *Val {
+		return &Val{K: VStruct, Ptr: true, Fields: map[string]*Val{"versionNumber": vint(ver)}}
+	}
+	matrix := func() *Val { return &Val{K: VStruct, Ptr: true, Fields: map[string]*Val{}} }
+	if fd, p := c.funcDeclOf("qrcode/encoder", "embedTypeInfo"); fd == nil {
+		r.AnchorLost("S-INFOPLACEW", "qrcode/encoder.embedTypeInfo", "function not found")
+	} else {
+		decide("qrcode/encoder.embedTypeInfo", fd, p, 15, all, func(int64) []*Val { return []*Val{vint(1), vint(3), matrix()} }, func(dim int64) (w1, w2 []coord) {
+			for i := int64(0); i <= 5; i++ {
+				w1 = append(w1, coord{i, 8})
+			}
+			w1 = append(w1, coord{7, 8}, coord{8, 8}, coord{8, 7})
+			for j := int64(5); j >= 0; j-- {
+				w1 = append(w1, coord{8, j})
+			}
+			for j := dim - 1; j >= dim-7; j-- {
+				w2 = append(w2, coord{8, j})
+			}
+			for i := dim - 8; i < dim; i++ {
+				w2 = append(w2, coord{i, 8})
+			}
+			return
+		})
+	}
+	if fd, p := c.funcDeclOf("qrcode/encoder", "maybeEmbedVersionInfo"); fd == nil {
+		r.AnchorLost("S-INFOPLACEW", "qrcode/encoder.maybeEmbedVersionInfo", "function not found")
+	} else {
+		decide("qrcode/encoder.maybeEmbedVersionInfo/positions", fd, p, 18, from7, func(ver int64) []*Val { return []*Val{verVal(ver), matrix()} }, func(dim int64) (w1, w2 []coord) {
+			for j := int64(5); j >= 0; j-- {
+				for i := dim - 9; i >= dim-11; i-- {
+					w1 = append(w1, coord{i, j})
+				}
+			}
+			for i := int64(5); i >= 0; i-- {
+				for j := dim - 9; j >= dim-11; j-- {
+					w2 = append(w2, coord{i, j})
+				}
+			}
+			return
+		})
+		key := "qrcode/encoder.maybeEmbedVersionInfo/gate"
+		r.Analysed(key)
+		bad := ""
+		for ver := int64(1); ver < 7 && bad == ""; ver++ {
+			written, err := fold(fd, p, []*Val{verVal(ver), matrix()}, 17+4*ver, 18, 0)
+			if err != nil {
+				bad = fmt.Sprintf("?version %d: %v", ver, err)
+			} else if len(written) != 0 {
+				bad = fmt.Sprintf("version %d: %d modules are written, a symbol below version 7 has no version information", ver, len(written))
+			}
+		}
+		switch {
+		case strings.HasPrefix(bad, "?"):
+			r.Undecided("S-INFOPLACEW", key, c.pos(fd.Pos()), bad[1:])
+		case bad != "":
+			r.Fail("S-INFOPLACEW", key, c.pos(fd.Pos()), "violation", bad)
+		default:
+			r.Pass("S-INFOPLACEW", key, c.pos(fd.Pos()), "")
+		}
+	}
+	r.DecidedBy("T-FMTPOS", "S-INFOPLACEW", "the modules written for every bit of the format word, on every dimension")
+	r.DecidedBy("T-VERPOS", "S-INFOPLACEW", "the modules written for every bit of the version word, on every dimension from version 7, and none below")
 }
